@@ -331,7 +331,7 @@ def zoneBatch (F : FloatOps) (k : PrioConsts) (s : Strategy) (n : NodeIn) (hs : 
 inductive Out
   | degraded                                            -- every item has Reset = true, no quantity
   | batch (cpu mem : Int) (zones : Option (List (Int × Int)))
-deriving Repr
+deriving Repr, DecidableEq
 
 def calculate (F : FloatOps) (k : PrioConsts) (s : Strategy) (n : NodeIn) (hs : List HostApp)
     (pods : List PodIn) (ms : List Metric) (zs : List Zone)
